@@ -123,6 +123,23 @@ def exp_nf(r, signs):
     return fac * Rat.var(satom('exp', Rat(Poly(rest))))
 
 
+def const_sign(r):
+    """Sign of an expression that, after cancelling common monomials, only
+    contains radicals of constants (evaluated numerically), else None."""
+    r = cancel_mono(reduce_full(r))
+    if r.n.is_const() and r.d.is_const():
+        c = r.constant()
+        return (c > 0) - (c < 0)
+    for v in r.vars():
+        if not (isinstance(v, SAtom) and v[0] in ('sqrt', 'root') and
+                isinstance(v[1], Rat) and v[1].is_const()):
+            return None
+    val = num_eval(r, {})
+    if abs(val) < 1e-9:
+        return None
+    return 1 if val > 0 else -1
+
+
 def ired(r):
     """Reduce modulo I**2 = -1."""
     if 'I' in r.vars():
@@ -257,6 +274,22 @@ def root(r, b, signs=None):
             rn, rd = round(n ** (1.0 / b)), round(d ** (1.0 / b))
             if rn ** b == n and rd ** b == d:
                 return Rat.const(Fr(rn, rd))
+            # canonical radical: (n/d)^(1/b) = (n d^(b-1))^(1/b) / d with the
+            # b-th power factors of the integer radicand pulled out
+            m = n * d ** (b - 1)
+            outf, rad, f = 1, 1, 2
+            while f * f <= m and f < 10 ** 6:
+                e = 0
+                while m % f == 0:
+                    m //= f
+                    e += 1
+                outf *= f ** (e // b)
+                rad *= f ** (e % b)
+                f += 1
+            rad *= m
+            if rad == 1:
+                return Rat.const(Fr(outf, d))
+            return Rat.const(Fr(outf, d)) * _root_atom(Rat.const(rad), b)
     if signs is None:
         signs = Signs()
     out = Rat.const(1)
@@ -435,6 +468,41 @@ def equal_pos(a, b, witness=None):
 def _power_size(r, k):
     s_ = max(len(r.n.t), len(r.d.t), 1)
     return math.comb(s_ + k - 1, k)
+
+
+def same(a, b, witness):
+    """Three-valued identity test for the evaluated tiers: False when the
+    two sides differ at a witness point (a sound refutation), True when the
+    difference reduces to zero; raises Undecided when neither succeeds (the
+    normal forms are not complete)."""
+    refuted = False
+    evaluated = False
+    for env in witness or ():
+        try:
+            za, zb = num_eval_c(a, env), num_eval_c(b, env)
+        except Undecided:
+            break
+        evaluated = True
+        if abs(za - zb) > 1e-9 * max(1.0, abs(za), abs(zb)):
+            refuted = True
+            break
+    if refuted:
+        return False
+    if is_zero(a - b):
+        return True
+    try:
+        if not any('I' in x.vars() for x in (a, b)) and equal_pos(
+                a, b, witness):
+            return True
+        if not any('I' in x.vars() for x in (a, b)) and equal_pos(
+                -a, -b, witness):
+            return True
+    except Undecided:
+        pass
+    raise Undecided('identity %r == %r holds at the witness points but its '
+                    'proof is beyond the normal forms' % (a, b)
+                    if evaluated else 'identity %r == %r could be neither '
+                    'evaluated nor proved' % (a, b))
 
 
 def equal_exact(a, b, witness=None):
